@@ -350,11 +350,13 @@ theorem completion_stable (P : Program) (ins : List Pred) (htight : isTight P = 
 
 /-! ## renaming of private predicates -/
 
-/-- read the predicates in `clash` through their `_p` copies -/
-def renamedInterp (clash : List Pred) (T : PredI) : PredI :=
-  fun q a => if (⟨q, a.length⟩ : Pred) ∈ clash then T (q ++ "_p") a else T q a
+/-- read the predicates in `clash` through their renamed copies -/
+def renamedInterp (clash : List (Pred × String)) (T : PredI) : PredI :=
+  fun q a => match lookupExt clash ⟨q, a.length⟩ with
+    | some e => T (q ++ "_" ++ e) a
+    | none => T q a
 
-theorem sat_renamePreds (clash : List Pred) (T : PredI) (fc : FcI) : ∀ (F : Formula) (ρ : Asg),
+theorem sat_renamePreds (clash : List (Pred × String)) (T : PredI) (fc : FcI) : ∀ (F : Formula) (ρ : Asg),
     sat ⟨T, fc⟩ (F.renamePreds clash) ρ ↔ sat ⟨renamedInterp clash T, fc⟩ F ρ := by
   intro F
   induction F with
@@ -363,14 +365,9 @@ theorem sat_renamePreds (clash : List Pred) (T : PredI) (fc : FcI) : ∀ (F : Fo
     cases a with
     | tru | fls | cmp _ _ => exact Iff.rfl
     | atom a =>
-      simp only [Formula.renamePreds]
-      split
-      · rename_i hm
-        simp only [sat, AtomicF.sat, renamedInterp, List.length_map]
-        rw [if_pos (show (⟨a.pred, a.args.length⟩ : Pred) ∈ clash from hm)]
-      · rename_i hm
-        simp only [sat, AtomicF.sat, renamedInterp, List.length_map]
-        rw [if_neg (show (⟨a.pred, a.args.length⟩ : Pred) ∉ clash from hm)]
+      simp only [Formula.renamePreds, renameAtom, sat, AtomicF.sat, renamedInterp, List.length_map,
+        Atom.predicate]
+      cases lookupExt clash ⟨a.pred, a.args.length⟩ <;> exact Iff.rfl
   | not f ih => intro ρ; simp only [Formula.renamePreds, sat, ih]
   | bin c l r ihl ihr => intro ρ; cases c <;> simp only [Formula.renamePreds, sat, ihl, ihr]
   | quant q vs f ih =>
@@ -712,7 +709,7 @@ theorem ugAss_fold (ug : UserGuide) : ∀ (l : List SAnn) (acc : List SAnn) (res
 /-- the program side after `control_translate` and renaming of clashing private predicates -/
 def rightSide (t : ExternalTask) (ΓR : Theory) : List SAnn :=
   (controlTranslate t.userGuide.publicPreds ΓR).map fun a =>
-    { a with formula := a.formula.renamePreds (t.specPrivate.filter (· ∈ t.progPrivate)) }
+    { a with formula := a.formula.renamePreds t.clashMap }
 
 /-- what `assemble` yields for two translated programs -/
 def assembledPrograms (t : ExternalTask) (ΓL ΓR : Theory) : Assembled :=
